@@ -246,7 +246,12 @@ func route(t failer, f format, batch *metric.BrokerBatchRows, want []accepted, d
 						f, dropped, wantOutside[s], c.TS-nowOf(db), db.behind, db.ahead, row.IsOutOfTimeRange, s)
 				}
 				if !dropped {
-					wrote = append(wrote, s)
+					// the storage-side accessor documents: a row without namespace reads as the default one
+					sv := *c
+					if sv.NS == "" {
+						sv.NS = "default-ns"
+					}
+					wrote = append(wrote, sv.String())
 					st.written++
 				}
 			}
@@ -324,6 +329,8 @@ func TestIngestRoute(t *testing.T) {
 			f := format(rapid.IntRange(0, 3).Draw(t, "format"))
 			rc, custom := genReqCtx(t)
 			excludeKnown("TestIngestRoute", rc, f == fFlatClient || f == fFlatRaw)
+			noReqNS := genNoRequestNamespace(t, rc, f)
+			multiTenant := genTenancy(t, e, rc, noReqNS)
 			n := genBatchSize(t)
 			var ms []*am
 			var outside []bool
@@ -332,6 +339,7 @@ func TestIngestRoute(t *testing.T) {
 				ms, outside = append(ms, m), append(outside, out)
 				classes[tsClass] = true
 			}
+			ownNSWithinLimit("TestIngestRoute", ms, rc, f)
 			ms, outside = fit("TestIngestRoute", ms, outside, rc, f)
 			if len(ms) == 0 {
 				classes["step=nothing-to-send"] = true
@@ -345,6 +353,24 @@ func TestIngestRoute(t *testing.T) {
 			}
 			for why := range rejects {
 				classes["reject="+why] = true
+			}
+			if multiTenant {
+				classes["request=multi-tenant"] = true
+			}
+			if noReqNS {
+				classes["proto-no-request-ns"] = true
+			}
+			if varied, adjacent := nsShape(want); varied {
+				classes["rows-of-several-namespaces:"+f.String()] = true
+				if adjacent {
+					classes["same-name-adjacent-rows-different-ns:"+f.String()] = true
+				}
+				if noReqNS {
+					classes["proto-no-request-ns+rows-of-several-namespaces"] = true
+					if adjacent {
+						classes["proto-no-request-ns+same-name-adjacent-rows-different-ns"] = true
+					}
+				}
 			}
 			for _, m := range ms {
 				if hasDupKeys(m.Tags) {
@@ -407,7 +433,12 @@ func TestFormatsAgree(t *testing.T) {
 		e := &env{now: now, behind: msDay, ahead: msDay}
 		rc, custom := genReqCtx(t)
 		excludeKnown("TestFormatsAgree", rc, true)
+		// the protobuf request may come without request-level namespace (own namespaces are kept)
+		rcProto := *rc
+		noReqNS := genNoRequestNamespace(t, &rcProto, fProto)
+		multiTenant := genTenancy(t, e, rc, noReqNS)
 		target, _, _ := genMetric(t, e)
+		ownNSWithinLimit("TestFormatsAgree", []*am{target}, &rcProto, fProto)
 		if len(target.Tags) == 0 || rapid.Bool().Draw(t, "freshTags") {
 			target.Tags = genSeries(t)
 		}
@@ -428,7 +459,13 @@ func TestFormatsAgree(t *testing.T) {
 		}
 		var outs []outcome
 		classes := []string{}
+		nbClass := map[string]bool{}
+		rcAll := rc
 		for f := fProto; f <= fInflux; f++ {
+			rc := rcAll
+			if f == fProto {
+				rc = &rcProto
+			}
 			if !expressible(target, rc, f) {
 				continue
 			}
@@ -443,6 +480,7 @@ func TestFormatsAgree(t *testing.T) {
 				ms = append(ms, m)
 			}
 			outside := make([]bool, len(ms))
+			ownNSWithinLimit("TestFormatsAgree", ms, rc, f)
 			ms, _ = fit("TestFormatsAgree", ms, outside, rc, f)
 			if nb > len(ms) {
 				nb = len(ms)
@@ -462,6 +500,11 @@ func TestFormatsAgree(t *testing.T) {
 				o.c = readBrokerRow(row)
 				if o.c.String() != wc.String() || want[pos].c.String() != wc.String() {
 					t.Fatalf("harness: target row not at position %d", pos)
+				}
+				for _, p := range []int{pos - 1, pos + 1} {
+					if p >= 0 && p < len(want) && want[p].c.Name == wc.Name && want[p].c.NS != wc.NS {
+						nbClass["neighbour-same-name-other-ns:"+f.String()] = true
+					}
 				}
 				it := batch.NewShardGroupIterator(shards)
 				for it.HasRowsForNextShard() {
@@ -491,7 +534,10 @@ func TestFormatsAgree(t *testing.T) {
 		// agreement between formats (the per-format comparison with the model already happened)
 		for i := 1; i < len(outs); i++ {
 			a, b := outs[0], outs[i]
-			sameNS := target.NS == "" // own namespace: documented to be treated differently by proto and flat
+			// own namespace: documented to be treated differently by proto (the request's wins, if
+			// there is one) and flat (the row's wins); content is comparable when the model says
+			// that both formats store the same namespace
+			sameNS := a.model != nil && b.model != nil && a.model.NS == b.model.NS
 			if (a.model == nil) != (b.model == nil) {
 				// the limits are applied to what is on the wire, which two formats may render
 				// differently (client-side renaming, tag map of a line): no claim
@@ -528,9 +574,33 @@ func TestFormatsAgree(t *testing.T) {
 		if influxy {
 			classes = append(classes, "influx-expressible")
 		}
+		if multiTenant {
+			classes = append(classes, "request=multi-tenant")
+		}
+		if target.NS != "" {
+			classes = append(classes, "target-own-ns")
+		}
+		if noReqNS {
+			classes = append(classes, "proto-no-request-ns")
+			if target.NS != "" && acceptedAny {
+				classes = append(classes, "proto-no-request-ns+target-own-ns-stored")
+			}
+			if nbClass["neighbour-same-name-other-ns:proto"] {
+				classes = append(classes, "proto-no-request-ns+neighbour-same-name-other-ns")
+			}
+		}
+		for i := 1; i < len(outs); i++ {
+			if target.NS != "" && outs[0].model != nil && outs[i].model != nil && outs[0].model.NS == outs[i].model.NS {
+				classes = append(classes, "own-ns-content-compared:proto~"+outs[i].f.String())
+			}
+		}
+		for c := range nbClass {
+			classes = append(classes, c)
+		}
+		sort.Strings(classes)
 		// non-trivial: accepted, >= 2 tags (a permutation exists) and >= 2 formats compared
 		nt := acceptedAny && len(target.Tags) >= 2 && len(outs) >= 2
-		ev.Case("TestFormatsAgree", fmt.Sprintf("%s|%q|%v|%v|%d", amKey(target, now), rc.NS, rc.Enriched, *rc.Limits, shards), nt, classes,
+		ev.Case("TestFormatsAgree", fmt.Sprintf("%s|%q|%v|%v|%v|%d", amKey(target, now), rc.NS, noReqNS, rc.Enriched, *rc.Limits, shards), nt, classes,
 			map[string]any{"name": target.Name, "tags": fmt.Sprint(target.Tags), "fields": fmt.Sprint(target.Fields), "formats": len(outs), "accepted": acceptedAny})
 	})
 }
